@@ -144,7 +144,15 @@ func representable(sts *appsv1.StatefulSet) error {
 	if err != nil {
 		return err
 	}
-	if !apiequality.Semantic.DeepEqual(sts.Spec, back.Spec) {
+	want := sts.Spec.DeepCopy()
+	// Retain/Retain is what newer API servers default the claim retention policy to, and it is what the Advanced
+	// controller does in any case (it never deletes a claim): nothing is lost with it
+	if p := want.PersistentVolumeClaimRetentionPolicy; p != nil &&
+		(p.WhenDeleted == "" || p.WhenDeleted == appsv1.RetainPersistentVolumeClaimRetentionPolicyType) &&
+		(p.WhenScaled == "" || p.WhenScaled == appsv1.RetainPersistentVolumeClaimRetentionPolicyType) {
+		want.PersistentVolumeClaimRetentionPolicy = nil
+	}
+	if !apiequality.Semantic.DeepEqual(*want, back.Spec) {
 		return fmt.Errorf("StatefulSet %s/%s uses spec fields that an Advanced StatefulSet cannot represent, refusing to upgrade it", sts.Namespace, sts.Name)
 	}
 	return nil
